@@ -21,7 +21,7 @@ CLAIMS = {
  "C11": dict(
   category="proof", design_ref="DESIGN.md section 3 (C11)",
   technique=TECH + "loop invariants (cursor triple) under goto-instrument --apply-loop-contracts with an snprintf contract stub; loop-free full-domain harness for hwloc_compare_types",
-  text="hwloc_obj_type_snprintf (all type values, attribute contents, flag words), its OS-device helpers (all type words, any names table) and hwloc_obj_attr_snprintf satisfy the snprintf contract: nothing is written outside [buf,buf+size) (guarded arena + bounds checks), NUL-terminated when size>0, NULL/0 accepted, the return value is the sum of the pieces' untruncated lengths, and the loops terminate (decreases clauses). hwloc_compare_types is antisymmetric, transitive, Machine highest, PU deepest, consistent with the documented kinds, exactly one kind per type, order tables are inverse permutations: all type triples. Not decided: the print-then-parse round trip and hwloc_type_sscanf on hostile strings.",
+  text="hwloc_obj_type_snprintf (all type values, attribute contents, flag words), its OS-device helpers (all type words, any names table) and hwloc_obj_attr_snprintf satisfy the snprintf contract: nothing is written outside [buf,buf+size) (guarded arena + bounds checks), NUL-terminated when size>0, NULL/0 accepted, the return value is the sum of the pieces' untruncated lengths, and the loops terminate (decreases clauses). hwloc_compare_types is antisymmetric, transitive, Machine highest, PU deepest, consistent with the documented kinds, exactly one kind per type, order tables are inverse permutations: all type triples. Bounded stand-in: hwloc_type_sscanf on an arbitrary NUL-terminated string of <= 4 bytes returns 0/-1 without out-of-bounds access and accepted strings give a valid type. Not decided: the print-then-parse round trip.",
   note="Trusted: snprintf replaced by its C99 contract (stub); buffers 0..64 bytes, <= 8 info pairs with strings <= 3 chars; the OS-device names table is arbitrary in the proofs (statics are nondeterministic under loop-contract instrumentation)."),
  "C10": dict(
   category="proof", design_ref="DESIGN.md section 3 (C10)",
